@@ -31,7 +31,10 @@ m = dict(
                source_commits=[], add_only=True),
     engines=[dict(name='rapidcheck', path='/verif/harness', serves_properties=[c['property_id'] for c in checks],
                   kind_free_text='rapidcheck generators + shrinking driven through rc::detail::checkTestable by harness/support.hpp (hunt loop with signature exclusion); '
-                                 'exhaustive enumerators for the finite parts; libFuzzer targets in thorough tiers where listed')],
+                                 'exhaustive enumerators for the finite parts; quick and thorough tiers of every property'),
+             dict(name='libfuzzer', path='/verif/harness', serves_properties=[pid for pid in ids if pid in PROPS and any(b['variant'] == 'fuzz' for b in PROPS[pid]['binaries'])],
+                  kind_free_text='clang -fsanitize=fuzzer,address,undefined builds of the same property sources (VF_MAIN): coverage-guided mutation of the case bytes, the same run '
+                                 'functions and semantic oracles inside the target; thorough tiers only, in addition to the rapidcheck shards')],
     checks=checks,
     notes='Driver: ./check <ID> [--tier quick|thorough] [--replay FILE]; VERIF_SEED is honoured. Known findings: /verif/known_findings.txt.',
     not_applicable=na,
